@@ -62,6 +62,10 @@ def instances(tier, seed):
         if tier == 'quick':
             out.append({'id': f'{pitlib.prog_id(spec)}:full=0:single:params', 'spec': spec, 'full': False, 'mode': 'single:params', 'wseed': seed})
         out.append({'id': f'{pitlib.prog_id(spec)}:open_masks', 'spec': spec, 'full': True, 'mode': 'open', 'wseed': seed})
+    # the cost (and a summary / export) has been read at the previous masks; the new masks are then written through .data / in place
+    for spec in ([progs[0], progs[5]] if tier == 'quick' else [progs[0], progs[2], progs[3], progs[5], progs[6]]):
+        for hist in ('data', 'nograd'):
+            out.append({'id': f'{pitlib.prog_id(spec)}:full=1:dict:after_use+{hist}', 'spec': spec, 'full': True, 'mode': 'dict', 'wseed': seed, 'hist': hist})
     return out
 
 
@@ -102,7 +106,9 @@ def concrete_case(rec):
     spec, mode, full = rec['spec'], rec['mode'], rec['full']
     cost, names = _cost_arg(spec['fam'], 'dict' if mode.startswith('dict') or mode == 'open' else mode)
     pit, model, shape = pitlib.make_pit(spec, rec.get('wseed', 0), cost=cost, full_cost=full, discrete_cost=True)
-    pitlib.set_masks(pit, rec['masks'])
+    if rec.get('hist'):
+        _use(pit, names, shape)
+    pitlib.set_masks(pit, rec['masks'], rec.get('hist') or 'nograd')
     if mode == 'dict+reassign':
         pit.cost_specification = cost
     got = {(n or 'single'): float(pit.get_cost(n)) for n in names}
@@ -110,6 +116,16 @@ def concrete_case(rec):
     want = scratch_costs(spec, e, shape, 'dict' if mode.startswith('dict') else mode, full, model)
     ind = independent_counts(spec, e, shape, full, model)
     return got, want, ind
+
+
+def _use(pit, names, shape):
+    """what a training loop does with the model before the next update of the masks"""
+    with torch.no_grad():
+        pit(torch.zeros((1,) + tuple(shape)))
+    for n in names:
+        pit.get_cost(n)
+    pit.summary()
+    pit.export()
 
 
 def replay(rec):
@@ -127,10 +143,11 @@ def run_instance(p):
     spec, full, mode, wseed, selftest = p['spec'], p['full'], p['mode'], p.get('wseed', 0), p.get('selftest', False)
     cost, names = _cost_arg(spec['fam'], 'dict' if mode.startswith('dict') else mode)
     pit, model, shape = pitlib.make_pit(spec, wseed, cost=cost, full_cost=full, discrete_cost=True)
+    hist = p.get('hist')
 
     def fn(ex):
         pairs, sy = pitlib.fresh_masks(pit)
-        with SymMode(), swapped_params(pairs):
+        with SymMode(), (st.written_params(pairs, lambda: _use(pit, names, shape), hist) if hist else swapped_params(pairs)):
             if mode == 'dict+reassign':
                 pit.cost_specification = cost       # a spec (re)assigned after the masks moved must select the same cost functions
             costs = {(n or 'single'): st.scalar_of(pit.get_cost(n)) for n in names}
@@ -162,8 +179,8 @@ def run_instance(p):
                 if r == 'sat':
                     m2, _ = pitlib.grid_model(ex, sy, [bad] if bad is not True else [])
                     m2 = m2 or m
-                    rec = {'spec': spec, 'wseed': wseed, 'full': full, 'mode': mode, 'metric': metric, 'masks': pitlib.values_of(m2, sy), 'observable': obs,
-                           'key': f'{pitlib.prog_id(spec)}|{metric}|{obs}|full={int(full)}|{mode}' + ('|selftest' if selftest else '')}
+                    rec = {'spec': spec, 'wseed': wseed, 'full': full, 'mode': mode, 'metric': metric, 'masks': pitlib.values_of(m2, sy), 'observable': obs, 'hist': hist,
+                           'key': f'{pitlib.prog_id(spec)}|{metric}|{obs}|full={int(full)}|{mode}' + (f'|after_use+{hist}' if hist else '') + ('|selftest' if selftest else '')}
                     rec['what'] = f'{pitlib.prog_id(spec)} full_cost={full} {mode}: discrete {metric} cost {st.model_value(m2, term)} != {obs} value {ind.get(metric) if obs == "independent" else want[metric]}'
                     if selftest:
                         res.violations.append(jsonable(rec))
@@ -180,7 +197,7 @@ def run_instance(p):
             m2, _ = pitlib.grid_model(ex, sy, [])
             if m2 is not None:
                 masks = pitlib.values_of(m2, sy)
-                got, want_c, ind_c = concrete_case({'spec': spec, 'wseed': wseed, 'full': full, 'mode': mode, 'masks': jsonable(masks)})
+                got, want_c, ind_c = concrete_case({'spec': spec, 'wseed': wseed, 'full': full, 'mode': mode, 'masks': jsonable(masks), 'hist': hist})
                 eng = {k: float(st.model_value(m2, t)) for k, t in costs.items()}
                 res.sample({'program': pitlib.prog_id(spec), 'full_cost': full, 'mode': mode, 'masks': masks, 'cost_engine': eng, 'cost_exported_from_scratch': want_c})
                 if all(abs(eng[k] - got[k]) <= 1e-6 * max(1, abs(got[k])) for k in eng):
